@@ -148,7 +148,7 @@ def r2(ctx: Ctx) -> None:
                     got = iters
                     for a, b in (("'to'])", "TO"), ("'from'])", "FROM")):
                         pass
-                    ok = "['to']" in key(hi) and "['from']" in key(lo)
+                    ok = any(x in key(hi) for x in ("['to']", ".pop('to')", ".get('to')")) and any(x in key(lo) for x in ("['from']", ".pop('from')", ".get('from')"))
                     ctx.check(ok, f, il.node, "an id range is inclusive of both ends", "range(int(from), int(to) + 1)", f"range({short(lo)[-40:]}, {short(hi)[-40:]})")
                 # ids from the single running counter
                 idx = ("sym", f"{il.target[0]}∈{il.loopid}")
@@ -308,6 +308,12 @@ def r4(ctx: Ctx) -> None:
             continue
         ck = {key(strip_ver(c)): pol for c, pol, _ in p.conds}
         r = strip_ver(p.exit[1])
+        # a path that consults state kept outside the call (a memo of parsed specifications, ...) is not of the modelled shape
+        kept = [x for t_ in [r] + [strip_ver(c) for c, _, _ in p.conds] for x in subterms(t_) if (x[0] == "name" and x[1].split(".")[-1].isupper()) or (x[0] == "call" and key(x[1]) == "id")]
+        if kept:
+            ctx.unrec(f, f.node, "dispatch on the documented forms of a random specification", "the path consults state kept between calls (a memo): whether a kept entry still describes the specification at hand is not decided", short(kept[0])[:80])
+            seen.add("memo")
+            continue
         is_list = ck.get("isinstance(json_value, list)")
         is_dict = ck.get("isinstance(json_value, dict)")
         if is_list:
@@ -337,6 +343,9 @@ def r4(ctx: Ctx) -> None:
         else:
             seen.add("scalar")
             ctx.check(r == ("call", ("name", "float"), (("sym", "json_value"),), (), None), f, f.node, "a plain number is returned as is", "float(json_value)", short(r))
+    if "memo" in seen:
+        seen |= {"list", "const", "uniform", "normal", "expon", "scalar"}  # the memo paths were refused above; which forms they serve is not decided
+        seen.discard("memo")
     ctx.check(seen == {"list", "const", "uniform", "normal", "expon", "scalar"}, f, f.node, "all documented forms are dispatched", "list, const, uniform, normal, expon, scalar", str(sorted(seen)))
     # unknown key -> error
     unknown = [p for p in ctx.paths(f.qualname, auto_inline_trivial=False) if p.exit[0] == "raise" and all(not pol for c, pol, _ in p.conds if key(strip_ver(c)).endswith("in json_value)"))
@@ -425,6 +434,8 @@ def r5(ctx: Ctx) -> None:
                 for s in subterms(strip_ver(e.value)):
                     if s[0] == "sub" and s[1] == ("sym", "settings") and s[2][0] == "const":
                         got[e.attr].add(s[2][1])
+                    if s[0] == "call" and s[1] == ("attr", ("sym", "settings"), "get") and s[2] and s[2][0][0] == "const":
+                        got[e.attr].add(s[2][0][1])
     ctx.check(all(got[a] == {k} for a, k in want.items()), f, f.node, "each session parameter is read from its own key", str(want), str({a: sorted(v) for a, v in got.items()}))
 
 
